@@ -31,7 +31,7 @@ struct Ob { frame: Option<i32>, pa: Option<usize>, pb: Option<usize>, pulls: u64
 
 /// ops: bytes over `A`,`B` (branch next), `r` (drop handles, by_ref again), `c` (drop handles, by_rc; at most
 /// once, last split), `a`/`b` (drop the handle of branch A / B only: the other one lives on)
-fn run_fork<D>(rb: ring_buffer::Bounded<D>, src: &[i32], ops: &[u8]) -> Vec<Ob>
+fn run_fork<D>(rb: ring_buffer::Bounded<D>, src: &[i32], ops: &[u8], probe: bool) -> Vec<Ob>
 where
     D: ring_buffer::Slice<Element = i32> + ring_buffer::SliceMut,
 {
@@ -43,7 +43,7 @@ where
     macro_rules! segment {
         ($a:ident, $b:ident) => {{
             let (mut $a, mut $b) = (Some($a), Some($b));
-            out.push(Ob { frame: None, pa: $a.as_ref().map(|x| x.pending_frames()), pb: $b.as_ref().map(|x| x.pending_frames()), pulls: pulls.get() });
+            out.push(Ob { frame: None, pa: if probe { $a.as_ref().map(|x| x.pending_frames()) } else { None }, pb: if probe { $b.as_ref().map(|x| x.pending_frames()) } else { None }, pulls: pulls.get() });
             i += 1;
             while i < ops.len() && matches!(ops[i], b'A' | b'B' | b'a' | b'b') {
                 let f = match ops[i] {
@@ -52,7 +52,7 @@ where
                     b'a' => { assert!($a.is_some()); $a = None; None }   // the handle is dropped here
                     _ => { assert!($b.is_some()); $b = None; None }
                 };
-                out.push(Ob { frame: f, pa: $a.as_ref().map(|x| x.pending_frames()), pb: $b.as_ref().map(|x| x.pending_frames()), pulls: pulls.get() });
+                out.push(Ob { frame: f, pa: if probe { $a.as_ref().map(|x| x.pending_frames()) } else { None }, pb: if probe { $b.as_ref().map(|x| x.pending_frames()) } else { None }, pulls: pulls.get() });
                 i += 1;
             }
         }};
@@ -77,17 +77,19 @@ where
 /// line only.  `fork` asserts only that the buffer is EMPTY: an empty `Bounded` may sit at any start slot
 /// (`from_raw_parts(start, 0, data)`, or a buffer that was pushed to and popped before) — the branches' behaviour
 /// must not depend on it (`LinkFork.forkB_trace_sim` proves that of the model for every valid raw state)
-fn run_case(cap: usize, src: &[i32], ops: &[u8]) -> Option<Vec<Ob>> {
+fn run_case(cap: usize, src: &[i32], ops: &[u8]) -> Option<Vec<Ob>> { run_case_p(cap, src, ops, true) }
+/// `probe = false`: `pending_frames()` is never called during the run (an accessor must not be what keeps the state right)
+fn run_case_p(cap: usize, src: &[i32], ops: &[u8], probe: bool) -> Option<Vec<Ob>> {
     let start = if cap == 0 { 0 } else { (src.len() * 7 + ops.len() * 3 + ops.iter().map(|&b| b as usize).sum::<usize>()) % cap };
     match (cap + src.len()) % 4 {
-        0 => guarded(|| run_fork(ring_buffer::Bounded::from(vec![7i32; cap]), src, ops)),
-        1 => guarded(|| run_fork(ring_buffer::Bounded::from_raw_parts(start, 0, vec![-3i32; cap].into_boxed_slice()), src, ops)),
-        2 => guarded(|| { let mut store = vec![11i32; cap]; run_fork(ring_buffer::Bounded::from_raw_parts(start, 0, &mut store[..]), src, ops) }),
+        0 => guarded(|| run_fork(ring_buffer::Bounded::from(vec![7i32; cap]), src, ops, probe)),
+        1 => guarded(|| run_fork(ring_buffer::Bounded::from_raw_parts(start, 0, vec![-3i32; cap].into_boxed_slice()), src, ops, probe)),
+        2 => guarded(|| { let mut store = vec![11i32; cap]; run_fork(ring_buffer::Bounded::from_raw_parts(start, 0, &mut store[..]), src, ops, probe) }),
         _ => guarded(|| {
             // a buffer that has been used: pushed and popped `start` times, now empty again
             let mut rb = ring_buffer::Bounded::from(vec![5i32; cap]);
             for k in 0..start { rb.push(-900 - k as i32); rb.pop(); }
-            run_fork(rb, src, ops)
+            run_fork(rb, src, ops, probe)
         }),
     }
 }
@@ -239,6 +241,15 @@ fn case(st: &mut Stream, cap: usize, src: &[i32], ops: &[u8], kind: &str) {
     let l = line(cap, src, ops);
     mark(0, &l);
     let obs = run_case(cap, src, ops);
+    // the same schedule WITHOUT ever asking pending_frames(): frames and source pulls must be the same
+    {
+        let quiet = run_case_p(cap, src, ops, false);
+        let same = match (&obs, &quiet) { (Some(a), Some(b)) => a.len() == b.len() && a.iter().zip(b.iter()).all(|(x, y)| x.frame == y.frame && x.pulls == y.pulls), (None, None) => true, _ => false };
+        if same { st.oracle_ok(1); } else {
+            st.oracle_fail("the schedule gives different frames / source pulls when pending_frames() is never called in between (an accessor must not be what keeps the state right)", &l,
+                &format!("{:?}", obs.as_ref().map(|v| v.iter().map(|o| (o.frame, o.pulls)).collect::<Vec<_>>())), &format!("{:?}", quiet.as_ref().map(|v| v.iter().map(|o| (o.frame, o.pulls)).collect::<Vec<_>>())));
+        }
+    }
     let dom = in_domain(cap, ops);
     let upto = domain_prefix(cap, ops);
     // non-trivial: the lead changes sign, or a re-split happens while the branches are apart
